@@ -26,7 +26,7 @@ RULE = ("generated projects (profile reuse: one hub client field with refetchabl
 def run(ctx):
     cli = runner.build_cli()
     rt_common.configure(ctx, ctx.pick(2, 3))
-    results = e3.run_cases(ctx, cli, ["reuse", "rt"], ctx.pick(60, 1500), "c25", [("rt_common", "analyze_c25")])
+    results = e3.run_cases(ctx, cli, ["reuse", "rt"], ctx.pick(45, 1500), "c25", [("rt_common", "analyze_c25")])
     a = e3.aggregate(results, "rt_common.analyze_c25", "distinct")
     obs = {k: v for k, v in sorted(a["stats"].items())}
     cov = {"evaluations": len(results), "distinct_nontrivial": a["distinct"], "rule": RULE,
